@@ -8,7 +8,7 @@ Import ListNotations.
 From CXV Require Import Gen.Blocks Parse.BlocksSM Parse.BlocksSpec Parse.BlocksThms.
 From CXV Require Gen.PinsC03.
 From CXV Require Import Gen.ParserTables Parse.Balanced Parse.BalancedThms Parse.Specs Parse.ClassEnum Parse.CtorDtor.
-From CXV Require Import Gen.TokTy Parse.Declarator Parse.DeclSpec Parse.DeclThms Parse.BaseClause Parse.EnumList Parse.Specs Parse.Init Parse.Members Parse.MethodTail Parse.DeclStmt Parse.MemberStmt Parse.OpName Parse.FinishClass Parse.ConvOp Parse.OperatorMember.
+From CXV Require Import Gen.TokTy Parse.Declarator Parse.DeclSpec Parse.DeclThms Parse.BaseClause Parse.EnumList Parse.Specs Parse.Init Parse.Members Parse.MethodTail Parse.DeclStmt Parse.MemberStmt Parse.OpName Parse.FinishClass Parse.ConvOp Parse.OperatorMember Parse.FriendStmt.
 Open Scope N_scope.
 
 (* the access delivered with a member equals the backward-scan specification
@@ -255,6 +255,27 @@ Theorem operator_member_decodes_partial : forall pre post b ls o ps va quals e r
      (DOk (mkOpM m (op_toks o) t ps va (apply_end e (quals_of quals)), rest)).
 Proof. exact op_member_roundtrip. Qed.
 
+(* Friend declarations (behind `friend`, in a class body): `spec* T spec* <pointer / reference operators> name ( params ) quals <end>`
+   is one friend FUNCTION with the return type, name, parameters, qualifier set and ending written; `spec* T spec* ;` is one
+   friend TYPE named T *)
+Theorem friend_function_decodes_partial : forall pre post b ls n ps va quals e rest,
+  forallb spec_kw pre = true -> forallb spec_kw post = true ->
+  all_pfx ls = true -> legalL KB ls = true ->
+  layer_ok (LFn ps va) -> Forall mq_ok quals ->
+  (match e with MeBody soup => bal tk kty T_LIT_123 T_LIT_125 soup | MeCtor _ _ => False | _ => True end) ->
+  let m := apply_kws (pre ++ post) mods0 in
+  let t := wrap (TBase b (m_const m) (m_volatile m)) ls in
+  ev (fun f => friend_stmt f (kw_toks pre ++ nm_tok b :: kw_toks post ++ P ls [] ++ mkTk T_NAME n ::
+                              ktok LP :: params_toks ps va ++ ktok RP :: flat_map mq_toks quals ++ mlast_toks e ++ rest))
+     (DOk (FrFn m n t ps va (apply_end e (quals_of quals)), rest)).
+Proof. exact friend_function_roundtrip. Qed.
+
+Theorem friend_type_decodes_partial : forall pre post b rest,
+  forallb spec_kw pre = true -> forallb spec_kw post = true ->
+  ev (fun f => friend_stmt f (kw_toks pre ++ nm_tok b :: kw_toks post ++ ktok SEMI :: rest))
+     (DOk (FrType (apply_kws (pre ++ post) mods0) b, rest)).
+Proof. exact friend_type_roundtrip. Qed.
+
 (* the functions the hand-written models above mirror (_parse_class_decl, _parse_class_decl_base_clause, _maybe_parse_class_enum_decl, _parse_decl, _parse_method_end, _discard_ctor_initializer, _parse_field, _parse_bitfield, _parse_declarations, _parse_function, _parse_pqname_name_operator, _parse_operator_conversion and _finish_class_or_enum) are, token for
    token of their syntax trees, the ones the models were written against: the
    translator recomputes the digests from the live code and produces Gen/PinsC03.v
@@ -311,6 +332,8 @@ Print Assumptions definition_closed_by_semicolon.
 Print Assumptions anonymous_id_shared_by_its_declarators.
 Print Assumptions conversion_operator_decodes_partial.
 Print Assumptions operator_member_decodes_partial.
+Print Assumptions friend_function_decodes_partial.
+Print Assumptions friend_type_decodes_partial.
 
 (* `static Foo * f1 : 3 = 1, & m2 ( Bar a ) const noexcept = 0 ;` and `explicit Cls ( ) : a ( 1 ) { }` in class Cls (ids 5 / 6) *)
 Example c03_member_stmt_run :
